@@ -175,7 +175,7 @@ func leak(text string, secrets []string) string {
 	return ""
 }
 
-var strictCapEnd = os.Getenv("VERIF_C09_STRICT") == "1"
+var strictCapEnd = os.Getenv("VERIF_C09_STRICT") != "0" // on by default: the two shapes are recorded as known findings (KNOWN_FINDINGS.txt)
 
 func isBarrier(l string) bool { return strings.HasPrefix(l, "PONG vb") }
 
@@ -421,7 +421,7 @@ func runSession(c Case) Result {
 					capMarks["ack"+map[bool]string{true: "-nosasl", false: ""}[excused]] = true
 				}
 			}
-			// VERIF_C09_STRICT=1 (off by default; see notes/proposed-fixes/c09-cap-end-during-auth.md):
+			// VERIF_C09_STRICT (on by default, "0" switches it off; see notes/proposed-fixes/c09-cap-end-during-auth.md):
 			// also report the two excused shapes a server can produce during the exchange.
 			if strictCapEnd && capEnd && authStarted && !sawSuccess && saslOn && mech != nil && excused {
 				cls := "cap-end-on-nak-during-auth"
